@@ -225,16 +225,18 @@ def check_engine(prop, tier, seed):
     det_runs = {}
     audit_msgs = []
     for v in variants:
-        # For the schedule engine a failed audit is first confronted with what
-        # the batch finds: a data race in the library makes executions differ
-        # (racy code is UB), and then the race is the thing to report. An audit
-        # failure that no gated violation explains stays a machinery fault.
+        # For the schedule and environment engines a failed audit is first
+        # confronted with what the batch finds: a data race (sched) or a
+        # dependence on addresses / memory content (env) in the library makes
+        # executions differ between processes, and then that is the thing to
+        # report. An audit failure that no gated violation explains stays a
+        # machinery fault.
         n, msg = V.determinism_audit(sims[v], engine, tier, seed,
                                      os.path.join(outdir, 'det-' + v), det_mod,
                                      tolerate=True)
         det_runs[v] = n
         if msg:
-            if engine != 'sched':
+            if engine not in ('sched', 'env'):
                 raise V.MachineryFault(msg)
             audit_msgs.append(msg)
     all_viol, all_known, summaries = [], {}, []
@@ -265,9 +267,12 @@ def check_engine(prop, tier, seed):
         all_viol += viol
         for k, n in known.items():
             all_known[k] = all_known.get(k, 0) + n
-    if audit_msgs and not [x for x in all_viol if x.get('cls') == 'data_race']:
-        raise V.MachineryFault(audit_msgs[0] + ' (and no data race was found that '
-                               'would explain it)')
+    explains = {'sched': ('data_race',),
+                'env': ('environment_dependence', 'history_dependence',
+                        'trailing_bytes_dependence', 'crash')}.get(engine, ())
+    if audit_msgs and not [x for x in all_viol if x.get('cls') in explains]:
+        raise V.MachineryFault(audit_msgs[0] + ' (and the batch found no violation '
+                               'that would explain it)')
     main = summaries[0]
     ei = ENGINE_INFO[engine]
     wall = max(sum(s['wall_s'] for s in summaries), 1e-9)
